@@ -652,6 +652,30 @@ pub fn high_family() -> Vec<Spec> {
     ]
 }
 
+/// Interactions of right contexts with classes: (a) a context rule whose lexeme ends in several
+/// characters / ranges, each with its own lower-priority rule (the fallback differs per character
+/// when the context fails); (b) a context in which a character completes the context while a range
+/// covering it continues; (c) sets with nested members under `#`, in rules and in contexts;
+/// (d) a character covered by a same-target range inside a context that continues.
+pub fn ctx_fallback_family() -> Vec<Spec> {
+    let cx = |re: Re, c: Re| Rule { re, ctx: Some(c), kind: Kind::Act(D_RETURN) };
+    let nested = set(&[('a', 'c'), ('b', 'b')]);
+    vec![
+        Spec::single(vec![cx(set(&[('a', 'a'), ('b', 'b')]), ch('x')), ret(ch('a')), ret(ch('b')), ret(set(&[('c', 'c'), ('x', 'x')]))], "ctx_fallback"),
+        Spec::single(vec![cx(set(&[('a', 'c')]), ch('x')), ret(set(&[('a', 'b')])), ret(Re::Any)], "ctx_fallback"),
+        Spec::single(vec![cx(cat(ch('c'), set(&[('a', 'a'), ('b', 'b'), ('x', 'x')])), ch('x')), ret(st("ca")), ret(st("cb")), ret(st("cx")), ret(set(&[('a', 'c'), ('x', 'x')]))], "ctx_fallback"),
+        Spec::single(vec![cx(set(&[('a', 'a'), ('b', 'c')]), ch('x')), ret(ch('a')), ret(set(&[('b', 'c')])), ret(ch('x'))], "ctx_fallback"),
+        Spec::single(vec![cx(set(&[('a', 'a'), ('b', 'b'), ('c', 'c')]), ch('x')), cx(set(&[('a', 'a'), ('c', 'c')]), ch('b')), ret(ch('b')), ret(set(&[('a', 'c'), ('x', 'x')]))], "ctx_fallback"),
+        Spec::single(vec![cx(st("ab"), alt(ch('c'), cat(set(&[('a', 'c')]), ch('x')))), ret(ch('a')), ret(ch('b')), ret(set(&[('c', 'c'), ('x', 'x')]))], "ctx_arm"),
+        Spec::single(vec![cx(ch('a'), alt(cat(set(&[('a', 'c')]), ch('x')), set(&[('b', 'b'), ('x', 'x')]))), ret(set(&[('a', 'c'), ('x', 'x')]))], "ctx_arm"),
+        Spec::single(vec![cx(ch('x'), cat(nested.clone(), ch('a'))), ret(set(&[('a', 'c'), ('x', 'x')]))], "ctx_arm"),
+        Spec::single(vec![cx(ch('x'), cat(alt(ch('b'), set(&[('a', 'c')])), plus(ch('a')))), ret(set(&[('a', 'c'), ('x', 'x')]))], "ctx_arm"),
+        Spec::single(vec![ret(plus(diff(nested.clone(), ch('x')))), ret(ch('x'))], "diff_nested"),
+        Spec::single(vec![cx(ch('x'), diff(Re::Any, nested.clone())), ret(ch('x')), ret(set(&[('a', 'c')]))], "diff_nested"),
+        Spec::single(vec![cx(plus(ch('a')), alt(diff(Re::Any, set(&[('a', 'c'), ('c', 'c'), ('b', 'b')])), Re::Eoi)), ret(set(&[('a', 'c'), ('x', 'x')]))], "diff_nested"),
+    ]
+}
+
 /// Delimited lexemes: a `_` (or `_ # c`) loop between delimiters — the `_` transition leads to a
 /// state with several predecessors (never inlined).
 pub fn delimited_family() -> Vec<Spec> {
@@ -722,6 +746,7 @@ pub fn shape_pool(q: bool) -> Vec<Spec> {
     // a lexeme whose only rule has a failing context, right before the end of input, with a `$` rule waiting
     v.push(Spec::single(vec![Rule { re: ch('a'), ctx: Some(ch('b')), kind: Kind::Act(D_RETURN) }, ret(Re::Eoi), ret(ch('c'))], "eoi_ctx"));
     v.push(Spec::single(vec![Rule { re: st("ab"), ctx: Some(ch('b')), kind: Kind::Act(D_RETURN) }, ret(cat(ch('x'), Re::Eoi)), ret(Re::Eoi), ret(ch('c'))], "eoi_ctx"));
+    v.extend(ctx_fallback_family());
     // sizes: a 30-rule definition, deep nesting, many alternatives
     v.extend(stress_family().into_iter().filter(|s| s.family == "thirty"));
     v.push(Spec::single(vec![ret(plus(cat(star(alt(ch('a'), ch('b'))), ch('c')))), ret(ch('a')), ret(ch('x'))], "nested"));
@@ -1059,6 +1084,8 @@ fn groups_core(prop: &str, tier: &str) -> Vec<Group> {
             specs.push(Spec::single(vec![rule(Re::Any, Kind::Skip)], "any_only"));
             specs.push(Spec::single(vec![rule(plus(Re::Any), Kind::Act(D_CONTINUE))], "any_only"));
             let mut p = plan("C09", Proj::Progress, 5, 1);
+            // actions look at `peek()`, `match_()` and `match_loc()`: also through an iterator-based constructor
+            p.ctors = vec![CTOR_NEW_WITH_STATE, CTOR_FROM_ITER_WITH_STATE];
             let long = if q { 20_000 } else { 30_000 };
             p.extra_inputs = vec![
                 "a".repeat(long),
@@ -1227,6 +1254,12 @@ fn groups_core(prop: &str, tier: &str) -> Vec<Group> {
                 rules.push(rule(plus(builtin(n)), Kind::Simple));
                 specs.push(Spec::single(rules, "builtin_decoys"));
             }
+            // a class rule under a context that cannot hold at the end of input, in front of overlapping class rules
+            for (a, rest) in [("alphabetic", vec!["uppercase", "lowercase", "alphabetic"]), ("alphanumeric", vec!["numeric", "ascii_alphabetic", "alphabetic", "alphanumeric"]), ("XID_Continue", vec!["XID_Start", "ascii_digit"])] {
+                let mut rules = vec![Rule { re: builtin(a), ctx: Some(ch('=')), kind: Kind::Simple }];
+                rules.extend(rest.iter().map(|n| rule(builtin(n), Kind::Simple)));
+                specs.push(Spec::single(rules, "builtin_ctx_multi"));
+            }
             let mut p = plan("C13", Proj::ClassSweep, 0, 0);
             p.sweep_all = true;
             p.check_probe_neutral = false;
@@ -1238,6 +1271,8 @@ fn groups_core(prop: &str, tier: &str) -> Vec<Group> {
             // repeat a character, built-ins in every position, many rules, chains, several rule sets
             let mut specs: Vec<Spec> = ctx_family(!q).into_iter().step_by(if q { 4 } else { 1 }).collect();
             specs.extend(stress_family().into_iter().filter(|s| s.family != "chain_long"));
+            specs.extend(ctx_fallback_family());
+            specs.extend(fold_family().into_iter().step_by(if q { 6 } else { 2 }));
             specs.extend(sets_family(6, &[2, 3, 5], true).into_iter().step_by(if q { 7 } else { 2 }));
             specs.extend(eoi_family().into_iter().step_by(if q { 9 } else { 3 }));
             specs.extend(kinds_family(false).into_iter().step_by(if q { 13 } else { 3 }));
@@ -1318,6 +1353,12 @@ fn groups_core(prop: &str, tier: &str) -> Vec<Group> {
                 });
                 // strings of one character (also outside ASCII) are strings
                 specs.push(Spec::single(vec![ret(cat(st("a"), plus(st("b")))), ret(st("c")), ret(ch('a'))], "one_char_string"));
+            }
+            // a class-valued variable inside a context, beside a character it contains
+            for c in [alt(ch('a'), cat(var("lower"), ch('x'))), alt(cat(var("lower"), ch('x')), ch('b')), cat(alt(ch('b'), var("lower")), ch('a'))] {
+                let mut s = Spec::single(vec![Rule { re: ch('x'), ctx: Some(c), kind: Kind::Act(D_RETURN) }, ret(set(&[('a', 'c'), ('x', 'x')]))], "let_ctx_class");
+                s.lets = lets(&[("lower", set(&[('a', 'c')]))]);
+                specs.push(s);
             }
             // a let that refers to an earlier let; variables in right contexts
             let mut s = Spec::single(vec![ret(cat(var("w"), ch('c'))), Rule { re: var("d"), ctx: Some(var("w")), kind: Kind::Act(D_RETURN) }, ret(set(&[('a', 'c')]))], "let_chain");
@@ -1421,7 +1462,11 @@ fn groups_core(prop: &str, tier: &str) -> Vec<Group> {
             ];
             let mut pc = plan("C11", Proj::Full, 4, 0);
             pc.alphabet = vec!['a', 'b', 'e', 'x'];
-            vec![Group { plan: p, specs }, Group { plan: pc, specs: ctxs }]
+            let mut pf = plan("C11", Proj::Full, 3, 0);
+            pf.alphabet = FOLD_ALPHABET.to_vec();
+            let mut pd = plan("C11", Proj::Full, 4, 0);
+            pd.alphabet = ABCX.to_vec();
+            vec![Group { plan: p, specs }, Group { plan: pc, specs: ctxs }, Group { plan: pf, specs: fold_family().into_iter().step_by(if q { 2 } else { 1 }).collect() }, Group { plan: pd, specs: ctx_fallback_family() }]
         }
         _ => vec![],
     }
